@@ -424,8 +424,15 @@ def fn_record(modname, spec, rnd):
     traces = []
     for _ in range(rnd.choice([1, 1, 2])):
         force = getattr(spec, "force", None) or {}
-        args = {p.name: ("Outer" if p.name in ("self", "cls") else force.get(p.name) or rnd.choice(TRACE_TYPES))
-                for p in spec.params if p.name in force or rnd.random() < 0.85}
+        has_receiver = spec.fkind in ("INSTANCE", "CLASS", "PROPERTY")
+        args = {}
+        for i, p in enumerate(spec.params):
+            if i == 0 and has_receiver:
+                args[p.name] = "Outer"            # the tracer records the receiver's type too
+            elif p.name in ("self", "cls"):
+                args[p.name] = rnd.choice(TRACE_TYPES)   # an ordinary parameter that only looks like a receiver
+            elif p.name in force or rnd.random() < 0.85:
+                args[p.name] = force.get(p.name) or rnd.choice(TRACE_TYPES)
         is_gen = spec.flavour in ("generator", "asyncgen")
         traces.append({"args": args, "ret": force.get("return") or rnd.choice([None, "int", "NoneType"]),
                        "yield": "int" if is_gen else None})
@@ -577,6 +584,15 @@ def describe_failure(c):
     for fc in c["funcs"]:
         if fc.get("raised"):
             return f"no stub for {c['module']}: {fc['raised']}"
+    for fc in c["funcs"]:
+        # the FunctionDefinition itself (before any rendering): a method's receiver must not pick up a traced type
+        ps = list(fc["defn"].signature.parameters.values())
+        if fc["kind"] in ("CLASS", "INSTANCE", "PROPERTY", "DJANGO_CACHED_PROPERTY") and ps and fc["gt_params"] \
+                and ps[0].annotation is not inspect.Parameter.empty and not fc["gt_params"][0][3]:
+            return (f"stub of {c['module']}: the receiver {ps[0].name!r} of {fc['kind']} {'.'.join(fc['qual'])}"
+                    f"{inspect.signature(lambda: 0).replace(parameters=[p.replace(annotation=inspect.Parameter.empty, default=inspect.Parameter.empty) for p in ps])} "
+                    f"is annotated `{ps[0].name}: {getattr(ps[0].annotation, '__name__', ps[0].annotation)}` (strategy {fc['strategy']}, "
+                    f"traced {fc['traced']}) although the source leaves it unannotated")
     quals = [".".join(fc["qual"]) for fc in c["funcs"]]
     head = f"ModuleStub.render() for traces of {c['module']}.{{{', '.join(quals[:6])}{', ...' if len(quals) > 6 else ''}}}"
     if c["syntax_error"] and c["syntax_error"].startswith("ModuleStub.render() raised"):
